@@ -105,6 +105,13 @@ def field_stores(facts, adt, field, include_derived=False):
             last = st["pl"]["p"][-1]
             if isinstance(last, dict) and last.get("name") == field and last.get("adt") == adt:
                 out.append((b, site, st))
+            elif st["pl"]["p"] == ["*"]:
+                # a store through a reference: where does the reference point?
+                tgt = b.expr_of_local(st["pl"]["l"], site)
+                while tgt.k in ("ref", "deref"):
+                    tgt = tgt.a[0]
+                if tgt.k == "field" and tgt.x.get("name") == field and tgt.x.get("adt") == adt:
+                    out.append((b, site, st))
     return out
 
 
@@ -354,13 +361,22 @@ def reachable_without(body, banned_edges=(), banned_blocks=(), start=0):
 
 
 def flat_alts(e):
-    """alternatives of an expression (phi flattened)"""
+    """alternatives of an expression: phi flattened, and Ok(phi(a|b)) / Some(phi(a|b)) distributed
+    into Ok(a) | Ok(b) (a variant built around a join is the join of the variants)"""
     out = []
 
     def go(x):
         if x.k == "phi":
             for c in x.a:
                 go(c)
+        elif x.k == "agg" and x.x.get("ak") == "adt" and len(x.a) == 1 and x.a[0].k == "phi" and x.x.get("variant") in ("Ok", "Some", "Err") \
+                and any(c.k == "agg" and c.x.get("ak") == "adt" for c in flat_alts(x.a[0])):
+            # only a join of *variants* is distributed; a join of values stays one alternative
+            for c in flat_alts(x.a[0]):
+                kw = dict(x.x)
+                if c.x.get("site") is not None:
+                    kw["site"] = c.x["site"]      # the alternative is decided where the inner variant is built
+                go(Expr("agg", [c], **kw))
         else:
             out.append(x)
     go(e)
@@ -414,3 +430,48 @@ def tuple_part(e):
 def cursor_sources(e):
     """sites of the ReaderCursor / helper calls an entry (or a part of it) comes from"""
     return source_sites(e, lambda x: x.x["path"].startswith(A("rc_prefix")) or x.x["path"].endswith(A("last_prefix")))
+
+
+def specialise_switch(b, pred, variant):
+    """a copy of body `b` in which every switch selected by pred(discr_expr, enum) is replaced by a
+    jump to the arm of `variant`.  Paths of the other variants disappear, so joins after the match
+    (a value chosen per variant, code hoisted before or sunk after the match) resolve to what this
+    variant does.  Block numbering is unchanged: sites of `b` remain valid in the copy."""
+    import copy
+    from .mirlib import Body
+    raw = copy.deepcopy(b.raw)
+    n = 0
+    for bb in sorted(b.normal_blocks()):
+        if b.term(bb)["t"] != "switch":
+            continue
+        e, enum, labels, oth = switch_on(b, bb)
+        if pred(e, enum):
+            tgt = labels.get(variant, oth)
+            if tgt is None:
+                continue
+            raw["blocks"][bb]["term"] = {"t": "goto", "target": tgt, "span": b.term(bb)["span"], "specialised": variant}
+            n += 1
+
+    def _succ(t):
+        out = []
+        for k in ("target", "unwind", "otherwise"):
+            if isinstance(t.get(k), int):
+                out.append(t[k])
+        for v in t.get("arms", []) or []:
+            out.append(v[1])
+        return out
+    seen, todo = {0}, [0]
+    while todo:
+        x = todo.pop()
+        for y in _succ(raw["blocks"][x]["term"]):
+            if y not in seen:
+                seen.add(y)
+                todo.append(y)
+    # blocks no longer reachable are emptied so that their definitions reach nothing
+    for i, blk in enumerate(raw["blocks"]):
+        if i not in seen:
+            blk["stmts"] = []
+            blk["term"] = {"t": "unreachable", "span": blk["term"]["span"]}
+    nb = Body(raw, b.facts)
+    nb.specialised = (variant, n)
+    return nb
